@@ -100,7 +100,9 @@ InputLabels(e) ==
             ELSE IF MustRefuse
             THEN (IF Ok(e) THEN {<<"C15.gate_accepted", tsize, limit>>}
                   ELSE IF e.res # "err:topic_full" THEN {<<"C15.gate_error", e.res>>} ELSE {})
-            ELSE IF ~Ok(e) THEN {<<"C15.gate_refused", e.res, tsize, limit, delOldest>>}
+            ELSE IF ~Ok(e) THEN (IF e.res = "err:topic_full" THEN {<<"C15.gate_refused", e.res, tsize, limit, delOldest>>}
+                                 \* a send that names an existing partition, a key or nothing must land on an existing partition
+                                 ELSE {<<"C17.valid_send_refused", e.kind, e.res>>})
             ELSE (IF Cardinality(Landed(e)) # 1 THEN {<<"C17.landing", Cardinality(Landed(e))>>} ELSE {})
                  \cup (IF Landed(e) # {} /\ ~MayLand(e.kind, e.v, Target(e)) THEN {<<"C17.mayland", e.kind, Target(e)>>} ELSE {})
       [] e.ev = "set_limit" ->
